@@ -13,6 +13,7 @@ import math, cmath, random
 
 # --------------------------------------------------------------------------- atoms
 _ATOMS = {}          # id -> Atom
+POSITIVE = set()     # ids of symbols a check declares to be > 0 (e.g. radii after normalisation)
 
 
 class Atom(object):
@@ -670,6 +671,8 @@ def apply_fn(fn, x):
         if f is not None:
             return Rat.const(abs(f))
         re, im = x.real(), x.imag()
+        if im.is_zero() and re.is_poly() and not re.is_zero():
+            return _abs_real_poly(re.num)
         return apply_fn('sqrt', re * re + im * im)
     if fn == 'log':
         f = x.as_fraction()
@@ -679,6 +682,44 @@ def apply_fn(fn, x):
     if fn in ('acos', 'asin', 'atan', 'ceil', 'floor', 'sign', 'clip', 'phase'):
         return Rat(Poly.atom(fn_atom(fn, x)))
     raise Undecidable('function %s' % fn)
+
+
+def _abs_real_poly(p):
+    """|p| for a real polynomial: |content| * prod |atom|^e * |primitive part|, where |q| := sqrt(q^2)
+    (so that abs(a*b), abs(a)*abs(b) and sqrt(a*a)*abs(b) share one normal form)"""
+    monos = list(p.t)
+    # monomial content
+    common = dict(monos[0])
+    for m in monos[1:]:
+        d = dict(m)
+        for a in list(common):
+            e = min(common[a], d.get(a, 0))
+            if e:
+                common[a] = e
+            else:
+                del common[a]
+    m0 = min(p.t)
+    lead = p.t[m0][0]
+    res = Rat.const(abs(lead))
+    prim = {}
+    for m, c in p.t.items():
+        d = dict(m)
+        for a, e in common.items():
+            d[a] -= e
+            if d[a] == 0:
+                del d[a]
+        prim[tuple(sorted(d.items()))] = (c[0] / lead, Fr(0))
+    for a, e in sorted(common.items()):
+        at = _ATOMS[a]
+        if at.fn == 'sqrt' or a in POSITIVE:
+            base = Rat(Poly.atom(at))          # sqrt(.) / declared-positive symbols are non-negative
+        else:
+            base = Rat(Poly.atom(fn_atom('sqrt', Rat(Poly.atom(at) ** 2))))
+        res = res * base ** e
+    q = Poly(prim)
+    if not (q.is_const()):
+        res = res * Rat(Poly.atom(fn_atom('sqrt', Rat(q * q))))
+    return res
 
 
 def _canon_sign(x):
